@@ -169,7 +169,9 @@ def run_matrix(ctx, report):
 
 
 PERMUTED = ['{"a":1,"b":2}', '{"b":2,"a":1}', '{"x":{"a":1,"b":2}}', '{"x":{"b":2,"a":1}}', '[{"a":1,"b":2}]', '[{"b":2,"a":1}]', '{"a":1,"b":2,"c":3}',
-            '{"c":3,"b":2,"a":1}', '{"b":2,"c":3,"a":1}', '[1,{"k":"v","l":null}]', '[1,{"l":null,"k":"v"}]', '{"a":1}', '[2]', '"s"']
+            '{"c":3,"b":2,"a":1}', '{"b":2,"c":3,"a":1}', '[1,{"k":"v","l":null}]', '[1,{"l":null,"k":"v"}]', '{"a":1}', '[2]', '"s"',
+            # objects with the same members that lie between the two spellings of another one
+            '{"a":1,"b":3}', '{"b":1,"a":1}', '{"a":1,"b":1}', '{"a":0,"b":2}', '{"b":3,"a":1}', '{"x":{"a":1,"b":3}}', '[{"a":1,"b":3}]', '{"a":1,"b":2,"c":4}']
 
 
 def run_permuted(ctx):
@@ -198,6 +200,25 @@ def run_permuted(ctx):
             if rel[(i, j)] != -rel[(j, i)]:
                 st.violation("not-antisymmetric-permuted", "cmp(a,b) != -cmp(b,a) for %s, %s" % (PERMUTED[i], PERMUTED[j]), {"kind": "permuted"}, None)
                 return
+    # ... and it is a (pre)order: transitive
+    for i in range(n):
+        for j in range(n):
+            if rel[(i, j)] > 0:
+                continue
+            for k in range(n):
+                if rel[(j, k)] <= 0 and (rel[(i, k)] > 0 or ((rel[(i, j)] < 0 or rel[(j, k)] < 0) and rel[(i, k)] >= 0)):
+                    st.violation("not-transitive-permuted", "a <= b and b <= c but not a <= c (or a strict step lost) for a=%s b=%s c=%s" % (PERMUTED[i], PERMUTED[j], PERMUTED[k]),
+                                 {"kind": "permuted"}, {"ab": rel[(i, j)], "bc": rel[(j, k)], "ac": rel[(i, k)]})
+                    return
+    # sort_unique over values whose equality the documents do fix (numbers by value: 0, -0, 0.0 are one number): the result
+    # is strictly increasing
+    ou = ctx.drv.run(core.Case(["--select=(sort_unique .)=u", "--style", "consise"], b'[3,0,1,-0,0.0,1.0,"x",null,1.5,-0.0,3.0,"x",[0],[-0],[0.0]]'))
+    if ou.result == "ok":
+        u = jm.plain(jm.read_rows(ou.stdout)[0]).get("u")
+        if u != [None, "x", 0, 1, 1.5, 3, [0]]:
+            st.violation("sort-unique-keeps-equal-values", "(sort_unique [3,0,1,-0,0.0,1.0,\"x\",null,1.5,-0.0,3.0,\"x\",[0],[-0],[0.0]]) = %s" % jm.dumps(u), {"kind": "permuted"}, {"u": u})
+            return
+        st.count("sort_unique_partition_checked")
     # the same relation decides --sort-by: sort all values in two arrival orders
     recs = ['{"k":%s,"i":%d}' % (t, i) for i, t in enumerate(PERMUTED)]
     o1, o2 = ctx.drv.run_many([core.Case(["--sort-by", ".k", "--select", ".i=i", "--style", "consise"], "\n".join(recs).encode()),
@@ -294,7 +315,12 @@ def run_unit(ctx, unit):
         recs = unit["recs"]
         data = "\n".join(jm.dumps(r) for r in recs)
         args = ["--select=(keys (sort_by_values_by .o (get ^.rank .)))=x", "--select=(sort_by .l (get ^.rank .))=y",
-                "--select=(map (sort_by (entries .o) (get ^.rank .value)) .key)=z"]
+                "--select=(map (sort_by (entries .o) (get ^.rank .value)) .key)=z",
+                # the key function sees what its caller sees: variables, macros (also from --set), bound at the place of the call
+                "--select=(set \"r\" .rank (keys (sort_by_values_by .o (get :r .))))=x2",
+                "--select=(define \"kf\" (get ^.rank .) (keys (order_by_values_by .o @kf)))=x3",
+                "--set", "@pk=(get ^.rank .)", "--select=(keys (sort_by_values_by .o @pk))=x4",
+                "--select=(set \"r\" .rank (sort_by .l (get :r .)))=y2"]
         o = ctx.drv.run(core.Case(args, data.encode()))
         if o.result != "ok":
             fail("sort-fn-run:" + o.result, "run failed: %s %s" % (o.errtext, o.panicinfo), {"args": args})
@@ -305,7 +331,7 @@ def run_unit(ctx, unit):
             rk = r["rank"]
             wx = [k for k, v in sorted(r["o"].items(), key=lambda kv: rk[kv[1]])]
             wy = sorted(r["l"], key=lambda v: rk[v])
-            if got.get("x") != wx or got.get("y") != wy or got.get("z") != wx:
+            if got.get("x") != wx or got.get("y") != wy or got.get("z") != wx or any(got.get(c) != wx for c in ("x2", "x3", "x4")) or got.get("y2") != wy:
                 fail("sort-function:by-outer-key", "sort_by_values_by / sort_by with a key looked up in the enclosing record is not ordered by this record's ranks",
                      {"record": r, "want_x": wx, "want_y": wy, "got": got})
                 return
